@@ -663,6 +663,24 @@ pub fn goldens() -> Vec<Golden> {
             assert!(act::apply(&e.w, &mut s, &Action::Accrue { b: 0 }).committed);
             s
         }), Box::new(|e, s, sg| one_ix(act::user_ix(&e.w, s, &Action::CollectFees { b: 0 }, sg).unwrap(), &[sg])), vec![0]));
+    v.push(admin("lending_pool_collect_bank_fees(fee wallet rotated, group cache stale)", Role::Anyone, Box::new(|e| {
+            let mut s = e.s.clone();
+            s.advance(31_536_000);
+            refresh_oracles(&mut s, &e.w);
+            assert!(act::apply(&e.w, &mut s, &Action::Accrue { b: 0 }).committed);
+            // the global fee admin moves the fee wallet; nobody propagates the change to the group
+            let fs = world::fee_state(&s);
+            let nw = world::key("G:rotated-fee-wallet");
+            must(&mut s, Tx::one(ix::edit_global_fee_state(e.w.fee_admin, e.w.fee_admin, nw, fs.bank_init_flat_sol_fee, fs.liquidation_flat_sol_fee, fs.program_fee_fixed, fs.program_fee_rate, fs.liquidation_max_fee), &[e.w.fee_admin]), "rotate fee wallet");
+            let b0 = &e.w.banks[0];
+            let na = ata(&nw, &b0.mint, &b0.token_program);
+            create_token_account_at(&mut s, &e.w.payer, &na, &b0.mint, &nw, b0.t22);
+            s
+        }), Box::new(|e, s, sg| {
+            let b0 = &e.w.banks[0];
+            let na = ata(&world::fee_state(s).global_fee_wallet, &b0.mint, &b0.token_program);
+            one_ix(ix::collect_bank_fees(e.w.group, b0.key, na, b0.token_program, e.w.mint_meta(b0)), &[sg])
+        }), vec![0]));
     v.push(admin(
         "lending_pool_accrue_bank_interest",
         Role::Anyone,
